@@ -5,6 +5,11 @@ CLAIMED = {
         "level": "Decides the clause 'comparing two lists always terminates' and lock hygiene for every body that takes a Mutex: all CFG paths, all lock sites of the crate; does not decide results of operation histories (run-time values).",
         "note": "Partial: structural clauses M1/M2 only.",
     },
+    "C16": {
+        "technique": "MIR escape/taint analysis of guard-derived raw pointers with guard-liveness dataflow and function summaries; who-may-call check on RawList; rustc trait-solver Send/Sync answers per field",
+        "level": "Decides the second clause (no element address outlives the critical section it was obtained in) for every body in the crate, plus 'RawList only through its mutex'; linearizability under schedules is not decided (run-time interleavings).",
+        "note": "Partial: escape/typestate clauses M1-M3.",
+    },
 }
 _PENDING = "check under construction in this session; not yet claimed"
 NOT_APPLICABLE = {p: _PENDING for p in
